@@ -128,8 +128,14 @@ def run_k10(tier, seed):
     ilines = [impl_line(c) for c in cases]
     iout = [None] * len(cases)
     shard = 30
+    n_tmo = 0
     for b in range(0, len(cases), shard):
         chunk = ilines[b:b + shard]
+        if n_tmo >= 5:
+            # non-termination is established; the rest is not run
+            for k in range(len(chunk)):
+                iout[b + k] = "<skipped>"
+            continue
         try:
             p = subprocess.run([bins["k3"]], input="\n".join(chunk) + "\n", stdout=subprocess.PIPE,
                                stderr=subprocess.PIPE, text=True, errors="replace", env=ENV, timeout=120)
@@ -145,8 +151,15 @@ def run_k10(tier, seed):
                     iout[b + k] = g[0] if g else "<no output>"
                 except subprocess.TimeoutExpired:
                     iout[b + k] = "<timeout>"
+                    n_tmo += 1
+                    if n_tmo >= 5:
+                        for k2 in range(k + 1, len(chunk)):
+                            iout[b + k2] = "<skipped>"
+                        break
     for c, a, m in zip(cases, iout, mout):
         line = impl_line(c)
+        if a == "<skipped>":
+            continue
         if a is None or a == "<timeout>" or a.startswith("<"):
             out["fail"].append({"case": line, "what": "does not terminate on an endless source although a match exists (timeout)"
                                 if a == "<timeout>" else "no output", "match_position_hint": c["m"]})
